@@ -644,7 +644,7 @@ class Interp:
             qual = owner.qualname + "." + st.name
         elif fr.func is not None:
             qual = fr.func.qualname + ".<locals>." + st.name
-        fv = FuncVal(st, fr.module, fr if (fr.func is not None or fr.cls is not None and fr.parent) else None, qual, owner)
+        fv = FuncVal(st, fr.module, fr if (fr.func is not None or getattr(fr, 'is_snippet', False) or fr.cls is not None and fr.parent) else None, qual, owner)
         if fr.cls is not None:
             fv.closure = fr.parent if fr.parent is not None and fr.parent.func is not None else None
         for d in st.decorator_list:
@@ -1505,6 +1505,7 @@ def _exec_snippet(self, module, src, env=None):
     fr = Frame(module)
     fr.locals = dict(env or {})
     fr.func = None
+    fr.is_snippet = True
     try:
         self.exec_block(tree.body, fr)
     except _Return as r:
